@@ -2000,11 +2000,11 @@ class AutoImporter:
             TerminalPdb = None
         @contextmanager
         def HookPdbCtx():
-            def Pdb_with_autoimport(self_pdb, *args):
-                __original__(self_pdb, *args)
+            def Pdb_with_autoimport(self_pdb, *args, **kwargs):
+                __original__(self_pdb, *args, **kwargs)
                 _enable_pdb_hooks(self_pdb)
-            def TerminalPdb_with_autoimport(self_pdb, *args):
-                __original__(self_pdb, *args)
+            def TerminalPdb_with_autoimport(self_pdb, *args, **kwargs):
+                __original__(self_pdb, *args, **kwargs)
                 _enable_terminal_pdb_hooks(self_pdb, self)
             with AdviceCtx(Pdb.__init__, Pdb_with_autoimport):
                 if TerminalPdb is None:
